@@ -3,6 +3,7 @@
   Property theorems only.  Theorems quantify over every `Fixes` setting unless they name `Fixes.cur`.
 -/
 import Qfx.Lemmas.CodecParse
+import Qfx.Lemmas.CodecTotal
 open Qfx Qfx.Spec
 
 /-- the field extracted from a buffer is exactly the bytes up to and including the first SOH; the rest is what follows -/
@@ -169,6 +170,15 @@ theorem C11_retrievable_nodict (fx : Fixes) (t8 t9 t35 : TagValue) (pre : List T
   rw [hsec]
   exact getBytes_view _ _ _ j tv hfind hj
 
+/-- PANIC FREEDOM OF THE PARSER (codec part of C09; `C09_parse_total` of DESIGN §5).  After the fixes of D2 and D3, for EVERY
+    byte string and EVERY dictionaries (transport and application, any content), `ParseMessageWithDataDictionary` into a
+    fresh message returns a message or an error: none of the Go index / slice expressions of `doParsing`, `parseGroup`,
+    `extractField`, `extractXMLDataField`, `TagValue.parse`, `atoi`, the header lookups (`getIntNoLock` of 9 / 212,
+    `msgTypeNoLock`) is ever out of range.  On the unchanged code the statement is false (C11_orig_no_checksum_faults,
+    C11_orig_xml_len_faults). -/
+theorem C11_parse_total (d : Dicts) (w : Bytes) : ∀ x, parseMessage Fixes.cur d w ≠ .fault x :=
+  parseMessage_nofault d w
+
 /-! ## not (yet) theorems — checked on every run by `Qfx.Spec.monParse` on the implementation and by the correspondence -/
 
 /-- for every well-formed wire message: success, fields in wire order with exact values, raw bytes unchanged -/
@@ -208,4 +218,5 @@ example : (extractField [56, 61, 70, 1, 57, 61, 53, 1]).1 = [57, 61, 53, 1] := b
    "first three fields are not 8, 9, 35 … rejected"                                          C11_rejects_order
    "BodyLength disagrees with its content … rejected"                                        C11_rejects_length, C11_finish_checks_length,
                                                                                               C11_loop_ends_in_length_check (+ monitor rejects_length)
-   panics of the unchanged code (C09 codec part)                                             C11_orig_no_checksum_faults, C11_orig_xml_len_faults -/
+   "rejected with an error" = never a panic (C09 codec part)                                 C11_parse_total (all inputs, all dictionaries, fixed code);
+                                                                                              unchanged code: C11_orig_no_checksum_faults, C11_orig_xml_len_faults -/
